@@ -234,7 +234,7 @@ func init() {
 func C05(r *eng.Run) {
 	r.Rule = "explicit-state conformance of the parser with a reference automaton for the documented syntax: every string up to length N over a 15-symbol alphabet {0,1,5,9,.,_,e,E,+,-,n,a,i,f,x} through Parse, UnmarshalText and MustParse " +
 		"(accept/reject must equal automaton membership, accepted values must equal the exact literal rounded by DefaultRoundingMode, errors must match strconv.ErrSyntax/ErrRange); " +
-		"plus structured literals: digit strings of every length 1..45 and {100,1000,32766..32769,65535..65537,70000} in 7 patterns and 34/35-digit tie patterns, every dot position (sampled positions for long ones), leading-zero runs, " +
+		"plus structured literals: digit strings of every length 1..45 and {100,1000,32766..32769,65535..65537,70000} in 7 patterns, 34/35-digit tie patterns, every sticky-tail pattern after 34/35-digit prefixes, leading-digit prefixes at the accumulator-switch lengths, '_' inserted at every position of 1..45-digit literals, every dot position (sampled positions for long ones), leading-zero runs, " +
 		"exponent fields across every threshold, 3 signs, 6 DefaultRoundingMode values; special names in every letter case; fmt.Sscan/Sscanf on valid numerals. " +
 		"states = distinct (automaton state, parser verdict) pairs observed, transitions = strings judged; non-trivial = ill-formed, rounded, over/underflowing or long literals."
 	r.Assumptions = []string{"binary codec is the identity on bits (checked at start; decided by C12)",
